@@ -478,7 +478,6 @@ func keysOfBool(m map[string]bool) []string {
 	return s
 }
 
-
 func init() {
 	old := All["C20"].Run
 	All["C20"].Run = func(c *an.Ctx) {
